@@ -11,7 +11,7 @@ PROPERTY = "C53"
 LOG = "python/logfile.py"
 QL = "twisted.python.logfile.LogFile"
 QB = "twisted.python.logfile.BaseLogFile"
-TECHNIQUE = "order typestate (sorted/reversed) + CFG order/dominance + normalised boundary comparisons"
+TECHNIQUE = "order typestate over CFG paths, dominance, symbolic name forms, normalised comparisons"
 EXPLANATION = (
     "Decides: (a) listLogs() returns integers sorted ascending (numeric, sort after the last append) and rotate() walks them in "
     "descending order (exactly one reversal on every path to the loop), renaming i -> i+1 with one format, so no rename "
@@ -24,7 +24,9 @@ EXPLANATION = (
     "positioned at its end. Not decided: the byte-exact suffix property, multi-byte size accounting (size counts characters: "
     "under-estimates only), DailyLogFile. "
     "Every anchor function is also checked to be entered on every call (no memoising/wrapping decorator, duplicate definition or rebinding). "
+    "Methods: every clause is decided structurally; the i -> i+1 clause is symbolic (same name format, index difference 1 for every i), no value is plugged in. "
 )
+RULE_KINDS = {"*": "structural"}     # sorted/reversed typestate over all CFG paths, dominance, symbolic file-name forms (index difference), normalised comparisons
 ASSUMPTIONS = [
     "the rules read a normalised view of the anchored modules (sa/props/_lib_j.Normaliser): private helpers expanded at their call sites, module constants and single-assignment pure temporaries substituted, loops over constant tuples unrolled; evaluation order inside one statement is not modelled",
    "os.rename is atomic; glob returns every rotated file", "LogFile is used by one thread at a time (threadable.synchronize)"]
